@@ -202,12 +202,20 @@ func addModule(g *G, gn *genetics.Genome, enabled bool, overlap bool) {
 		l := network.NewLink(pickWeight(g), gn.Nodes[p[k]], cn, g.chance(0.2))
 		cn.Incoming = append(cn.Incoming, l)
 	}
+	if g.chance(0.2) { // the same node listed twice as input, with another weight
+		l := network.NewLink(pickWeight(g), gn.Nodes[p[0]], cn, false)
+		cn.Incoming = append(cn.Incoming, l)
+	}
 	for k := 0; k < nOut; k++ {
 		t := gn.Nodes[p[nIn+k]]
 		if overlap && k == 0 {
 			t = gn.Nodes[p[0]]
 		}
 		l := network.NewLink(pickWeight(g), cn, t, false)
+		cn.Outgoing = append(cn.Outgoing, l)
+	}
+	if g.chance(0.15) { // ... and twice as output
+		l := network.NewLink(pickWeight(g), cn, gn.Nodes[p[nIn]], false)
 		cn.Outgoing = append(cn.Outgoing, l)
 	}
 	gn.ControlGenes = append(gn.ControlGenes, genetics.NewMIMOGene(cn, maxInnov(gn)+1, g.f64(), enabled))
